@@ -49,7 +49,7 @@ Proof.
   pose proof (put_result_kind f (uk b) k v) as K.
   destruct (exec fuel put_prog st0) as [st1 o1]. destruct (put f (uk b) k v) as [[f' h'] r]. destruct P as [P1 [P2 P3]].
   split; [|split].
-  - constructor; cbn [with_inner inner has_inner bq bks bused bbuf bro bsess with_uk uk has_uk queue bkeys used bufsize ro st]; try assumption.
+  - constructor; cbn [with_inner inner has_inner bq bks bused bbuf bro bsess bheld with_uk uk has_uk queue bkeys used bufsize ro st]; try assumption.
     intros _. exact P2.
   - reflexivity.
   - subst o1. destruct K as [K|[e K]]; subst r; [reflexivity|destruct e; reflexivity].
@@ -72,10 +72,10 @@ Proof.
   cbn [bwloop flush_loop]. rewrite Rq. destruct (queue b) as [|[k v] q'] eqn:Eq.
   - (* empty queue *)
     cbn [bout_of]. split; [reflexivity|]. constructor; cbn [set_used uk has_uk queue bkeys used bufsize ro st]; try assumption; try reflexivity; try (rewrite Rq; exact Eq).
-  - set (s1 := set_bloc (set_bloc (mkbs (inner s) (has_inner s) q' (bks s) (bused s) (bbuf s) (bro s) (bsess s) (bloc s)) "key" k) "value" v).
+  - set (s1 := set_bloc (set_bloc (mkbs (inner s) (has_inner s) q' (bks s) (bused s) (bbuf s) (bro s) (bsess s) (bheld s) (bloc s)) "key" k) "value" v).
     set (b1 := mkb (uk b) (has_uk b) q' (bkeys b) (used b) (bufsize b) (ro b) (st b)).
     assert (R1 : BRep s1 f b1).
-    { constructor; cbn [s1 set_bloc inner has_inner bq bks bused bbuf bro bsess b1 uk has_uk queue bkeys used bufsize ro st]; try assumption; reflexivity. }
+    { constructor; cbn [s1 set_bloc inner has_inner bq bks bused bbuf bro bsess bheld b1 uk has_uk queue bkeys used bufsize ro st]; try assumption; reflexivity. }
     assert (Lk : bloc s1 "key" = Some k) by reflexivity.
     assert (Lv : bloc s1 "value" = Some v) by reflexivity.
     destruct (has_uk b) eqn:Hh; cbn [negb].
@@ -106,7 +106,7 @@ Proof.
         rewrite (keys_code (inner s2') h' R2). cbn [bexec restore_loc].
         cbn [bout_of]. split; [destruct e; reflexivity|].
         destruct W1 as [A1 A2 A3 A4 A5 A6 A7 A8 A9].
-        constructor; cbn [s2' restore_loc inner has_inner bq bks bused bbuf bro bsess uk has_uk queue bkeys used bufsize ro st with_uk b1] in *; try assumption.
+        constructor; cbn [s2' restore_loc inner has_inner bq bks bused bbuf bro bsess bheld uk has_uk queue bkeys used bufsize ro st with_uk b1] in *; try assumption.
         -- reflexivity.
         -- rewrite A4. reflexivity.
     + (* no UKVFile yet: AttributeError from _write and again from update_keys in the handler *)
@@ -157,12 +157,12 @@ Proof.
   rewrite (flush_loop_fuel (S (List.length (queue b))) fuel f b (Nat.lt_succ_diag_r _) Hn).
   destruct (bwloop (bexec fuel loop_body) "key" "value" fuel s) as [s1 o1].
   destruct (flush_loop fuel f b) as [[f' b'] e] eqn:Ef. destruct L as [L1 L2]. subst o1.
-  destruct e as [x|]; cbn [bout_of]; [|change (bexec fuel BUsedReset s1) with (mkbs (inner s1) (has_inner s1) (bq s1) (bks s1) 0%Z (bbuf s1) (bro s1) (bsess s1) (bloc s1), BONormal)].
+  destruct e as [x|]; cbn [bout_of]; [|change (bexec fuel BUsedReset s1) with (mkbs (inner s1) (has_inner s1) (bq s1) (bks s1) 0%Z (bbuf s1) (bro s1) (bsess s1) (bheld s1) (bloc s1), BONormal)].
   - split; [reflexivity|]. split; [exact L2|reflexivity].
   - split; [reflexivity|]. split; [|reflexivity].
     pose proof (flush_loop_none fuel f b f' b' Hn Ef) as U.
     destruct L2 as [A1 A2 A3 A4 A5 A6 A7 A8 A9].
-    constructor; cbn [inner has_inner bq bks bused bbuf bro bsess set_used uk has_uk queue bkeys used bufsize ro st] in *; try assumption.
+    constructor; cbn [inner has_inner bq bks bused bbuf bro bsess bheld set_used uk has_uk queue bkeys used bufsize ro st] in *; try assumption.
     symmetry; exact U.
 Qed.
 
@@ -181,19 +181,19 @@ Proof.
   intros Hn R Lk Lv. pose proof R as R0. destruct R as [Rf Rh Ru Rq Rk Rus Rb Rr Rs].
   unfold bput_prog, b_put. cbn [bexec beval_bool]. rewrite Rr. destruct (ro b) eqn:Ero.
   - cbn [bexec]. split; [exact R0|reflexivity].
-  - repeat (progress (cbn [bexec beval_bytes beval_bool bloc bbuf bused inner has_inner bq bks bro bsess]; rewrite ?Lk, ?Lv)).
+  - repeat (progress (cbn [bexec beval_bytes beval_bool bloc bbuf bused inner has_inner bq bks bro bsess bheld]; rewrite ?Lk, ?Lv)).
     rewrite Rb, Rus. cbn [bufsize used].
     destruct (bufsize b <? used b + Z.of_N (len k) + Z.of_N (len v))%Z eqn:Eo.
-    + set (s1 := mkbs (inner s) (has_inner s) (bq s ++ [(k, v)]) (set_add (bks s) k) (used b + Z.of_N (len k) + Z.of_N (len v))%Z (bufsize b) (bro s) (bsess s) (bloc s)).
+    + set (s1 := mkbs (inner s) (has_inner s) (bq s ++ [(k, v)]) (set_add (bks s) k) (used b + Z.of_N (len k) + Z.of_N (len v))%Z (bufsize b) (bro s) (bsess s) (bheld s) (bloc s)).
       set (b1 := mkb (uk b) (has_uk b) (queue b ++ [(k, v)]) (set_add (bkeys b) k) (used b + Z.of_N (len k) + Z.of_N (len v))%Z (bufsize b) false (st b)).
       assert (R1 : BRep s1 f b1).
-      { constructor; cbn [s1 b1 inner has_inner bq bks bused bbuf bro bsess uk has_uk queue bkeys used bufsize ro st]; try assumption; try reflexivity; congruence. }
+      { constructor; cbn [s1 b1 inner has_inner bq bks bused bbuf bro bsess bheld uk has_uk queue bkeys used bufsize ro st]; try assumption; try reflexivity; congruence. }
       assert (Hn1 : (List.length (queue b1) < fuel)%nat) by (cbn [b1 queue]; rewrite app_length; simpl; lia).
       pose proof (flush_code fuel s1 f b1 Hn1 R1) as F.
       destruct (bexec fuel flush_prog s1) as [s2 o2]. destruct (flush f b1) as [[f' b2] e].
       destruct F as [F1 [F2 _]]. subst o2. split; [apply brep_restore; exact F2|]. destruct e; reflexivity.
     + split; [|reflexivity].
-      constructor; cbn [inner has_inner bq bks bused bbuf bro bsess uk has_uk queue bkeys used bufsize ro st]; try assumption; try reflexivity; congruence.
+      constructor; cbn [inner has_inner bq bks bused bbuf bro bsess bheld uk has_uk queue bkeys used bufsize ro st]; try assumption; try reflexivity; congruence.
 Qed.
 
 (* get(key) of the buffering layer: a buffered key is flushed first, then read through the translated UKVFile.get *)
@@ -226,7 +226,7 @@ Proof.
       destruct (exec fuel get_prog st0) as [st1 o1]. destruct G as [G1 [G2 [G3 [G4 G5]]]].
       split.
       + destruct R1 as [A1 A2 A3 A4 A5 A6 A7 A8 A9].
-        constructor; cbn [restore_loc with_inner inner has_inner bq bks bused bbuf bro bsess]; try assumption.
+        constructor; cbn [restore_loc with_inner inner has_inner bq bks bused bbuf bro bsess bheld]; try assumption.
         intros Hx. specialize (A3 Hx). destruct A3 as [B1 B2 B3 B4 B5 B6].
         constructor; rewrite ?G2; try assumption; change (attrs st0) with (attrs (inner s1)); try assumption.
         * intros Hc. rewrite G3, G4. change (strm st0) with (strm (inner s1)). apply B5; exact Hc.
@@ -282,7 +282,7 @@ Proof.
     destruct (exec fuel open_prog st0) as [st1 o1]. destruct (open_ f (uk b) m) as [f' h'].
     destruct O as [O1 [O2 O3]].
     split; [destruct O2 as [O2|O2]; subst o1; reflexivity|].
-    constructor; cbn [with_inner inner has_inner bq bks bused bbuf bro bsess opened uk has_uk queue bkeys used bufsize ro st]; try assumption; try reflexivity.
+    constructor; cbn [with_inner inner has_inner bq bks bused bbuf bro bsess bheld opened uk has_uk queue bkeys used bufsize ro st]; try assumption; try reflexivity.
     intros _. exact O3.
   - (* first session: UKVFile(path, mode=...) *)
     rewrite (Hh0 eq_refl). cbn [bexec bind_inner beval_val].
@@ -301,7 +301,7 @@ Proof.
     destruct (exec fuel init_prog st0) as [st1 o1]. destruct (open_ f h0 m) as [f' h'].
     destruct I as [I1 [I2 I3]]. subst o1.
     split; [reflexivity|].
-    constructor; cbn [inner has_inner bq bks bused bbuf bro bsess opened uk has_uk queue bkeys used bufsize ro st]; try assumption; try reflexivity.
+    constructor; cbn [inner has_inner bq bks bused bbuf bro bsess bheld opened uk has_uk queue bkeys used bufsize ro st]; try assumption; try reflexivity.
     intros _. exact I3.
 Qed.
 
@@ -335,7 +335,7 @@ Proof.
   pose proof (close_code fuel (inner s) (uk b) Ru M) as C.
   destruct (exec fuel close_prog (inner s)) as [st1 o1]. destruct C as [C1 [C2 [C3 C4]]]. subst o1.
   split; [reflexivity|].
-  constructor; cbn [with_inner inner has_inner bq bks bused bbuf bro bsess with_uk uk has_uk queue bkeys used bufsize ro st]; try assumption.
+  constructor; cbn [with_inner inner has_inner bq bks bused bbuf bro bsess bheld with_uk uk has_uk queue bkeys used bufsize ro st]; try assumption.
   - rewrite C1. exact Rf.
   - intros _. exact C2.
 Qed.
